@@ -45,7 +45,7 @@ def judge(ck, jobs, res, prefix, label):
       m = r["mismatches"][0]
       ck.violation(f"{prefix}|{sig}|{m['clause']}",
                    f"{label}: step {m['step']}: {m['clause']} ({m.get('detail')}); {sig}",
-                   {"job": j, "mismatches": r["mismatches"][:8]})
+                   {"worker": "harness.workers." + ("ds_graft" if prefix == "ds" else "tf_graft"), "job": j, "mismatches": r["mismatches"][:8]})
     else:
       ck.traces_ok(1)
 
